@@ -141,17 +141,23 @@ func instrument(file string, rules map[string]string) ([]byte, bool, error) {
 		}
 	}
 	needVrt := false
-	if rules["go"] != "" || rules["chan"] != "" || rules["numcpu"] != "" || rules["maprange"] != "" {
+	var extra [][2]string
+	if rules["go"] != "" || rules["chan"] != "" || rules["numcpu"] != "" || rules["maprange"] != "" || rules["mutex"] != "" {
 		rw := &rewriter{fset: fset, rules: rules, file: f}
 		rw.run()
 		if rw.changed {
 			changed = true
-			needVrt = true
+			needVrt = rules["go"] != "" || rules["chan"] != "" || rules["numcpu"] != "" || rules["maprange"] != ""
 		}
+		extra = rw.extraImports
+	}
+	for _, e := range extra {
+		addImport(f, e[0], e[1])
 	}
 	if needVrt {
 		addImport(f, "vrt", "verif/vrt")
 	}
+	pruneUnusedImports(f)
 	var buf bytes.Buffer
 	if err := format.Node(&buf, fset, f); err != nil {
 		return nil, false, err
@@ -180,4 +186,53 @@ func addImport(f *ast.File, name, path string) {
 	gd := &ast.GenDecl{Tok: token.IMPORT, Specs: []ast.Spec{spec}}
 	f.Decls = append([]ast.Decl{gd}, f.Decls...)
 	f.Imports = append(f.Imports, spec)
+}
+
+// pruneUnusedImports drops imports whose package name is no longer referenced (an unused import does
+// not compile). Only named-by-default or aliased imports are considered; blank and dot imports stay.
+func pruneUnusedImports(f *ast.File) {
+	used := map[string]bool{}
+	ast.Inspect(f, func(n ast.Node) bool {
+		if se, ok := n.(*ast.SelectorExpr); ok {
+			if id, ok := se.X.(*ast.Ident); ok {
+				used[id.Name] = true
+			}
+		}
+		return true
+	})
+	keep := func(im *ast.ImportSpec) bool {
+		if im.Name != nil {
+			if im.Name.Name == "_" || im.Name.Name == "." {
+				return true
+			}
+			return used[im.Name.Name]
+		}
+		p, _ := strconv.Unquote(im.Path.Value)
+		base := p[strings.LastIndex(p, "/")+1:]
+		if used[base] {
+			return true
+		}
+		// packages whose name differs from the last path element cannot be judged: keep unless it is a std package
+		return strings.Contains(p, ".")
+	}
+	for _, d := range f.Decls {
+		gd, ok := d.(*ast.GenDecl)
+		if !ok || gd.Tok != token.IMPORT {
+			continue
+		}
+		var specs []ast.Spec
+		for _, sp := range gd.Specs {
+			if keep(sp.(*ast.ImportSpec)) {
+				specs = append(specs, sp)
+			}
+		}
+		gd.Specs = specs
+	}
+	var ims []*ast.ImportSpec
+	for _, im := range f.Imports {
+		if keep(im) {
+			ims = append(ims, im)
+		}
+	}
+	f.Imports = ims
 }
